@@ -148,13 +148,15 @@ CHECKS["C07"] = ("StaticFiles.tla",
     "Trusted: TLC, servers.py, the audit hook (open / os.open events). POSIX only; no symlinks inside the tree.",
     "DESIGN.md 5 C07")
 
-CHECKS["C14"] = ("Conditional.tla",
+CHECKS["C14"] = ("Conditional.tla, TraceConditional.tla",
     "TLC exhaustive model check of file modifications and conditional requests on a virtual sub-second clock (NoStale, "
     "FreshAfterChange, EtagRevalidates, StarMatches, DateRevalidates over all histories); every edge replayed by DFS on the real "
-    "Files/Pages apps with os.stat virtualised inside baize.staticfiles",
-    "All histories of up to 5 (thorough 6) actions over {tick, rewrite same size, rewrite other size, touch, plain request, "
-    "conditional request with validators of response j in 10 syntactic forms}; status, body, ETag and Last-Modified of every "
-    "response compared.",
+    "Files/Pages apps with os.stat virtualised inside baize.staticfiles; trace validation by TLC of long recorded histories "
+    "(TraceConditional.tla: the module's invariants evaluated on the observed responses, then the decision rule itself)",
+    "All histories of up to 5 (thorough 6) actions over {tick, rewrite same size, rewrite other size, touch, restore with an older "
+    "mtime, chmod, plain request, conditional request with validators of response j in 12 syntactic forms}; status, body, ETag and "
+    "Last-Modified of every response compared. 60 (thorough 400) random histories of 70 (150) steps on a clock with 3 ticks per "
+    "second, sizes 3-9, validators of any earlier response.",
     "Trusted: TLC, the os.stat proxy. A date-only request is not required to detect a change within the same second.",
     "DESIGN.md 5 C14")
 
